@@ -2,3 +2,4 @@ pub mod layout;
 pub mod lineparse;
 pub mod retrace;
 pub mod sha1;
+pub mod traceparse;
